@@ -113,7 +113,10 @@ class PotableResult(object):
         return self.status == 2 and 'configuration error - ' in self.stderr
 
 
-def potable(ini_text, args=(), want_output=True, binary=False, name='model.aspot'):
+PREFILL = ('STALE CONTENT OF AN EARLIER TABULATION 0123456789 ' * 2 + '\n') * 3000      # ~300 kB
+
+
+def potable(ini_text, args=(), want_output=True, binary=False, name='model.aspot', prefill=False):
     """Run potable main() in-process.  Returns PotableResult; a non-SystemExit exception is kept in .exc"""
     from atsim.potentials.tools import potable as P
     d = tempfile.mkdtemp(prefix='p', dir=scratch())
@@ -121,6 +124,10 @@ def potable(ini_text, args=(), want_output=True, binary=False, name='model.aspot
     with open(cfg, 'w') as f:
         f.write(ini_text)
     out = os.path.join(d, 'OUT')
+    if prefill:
+        content = PREFILL if prefill is True else prefill
+        with open(out, 'wb' if isinstance(content, bytes) else 'w') as f:
+            f.write(content)
     argv = ['potable'] + list(args) + [cfg] + ([out] if want_output else [])
     # nargs='*' options swallow positionals: put positionals first when such options are used
     if any(a.startswith('-') for a in args):
